@@ -21,6 +21,14 @@ import time as _real_time
 import types
 
 
+DEADLINE_AT = None      # wall-clock time after which a run stops exploring (set by mc.run; polled by long loops)
+
+
+def expired():
+    import time as _t
+    return DEADLINE_AT is not None and _t.time() > DEADLINE_AT
+
+
 class HarnessError(Exception):
     """The harness lost control (replay divergence, real blocking, a seam that moved)."""
 
